@@ -1315,4 +1315,33 @@ theorem C04_drop_deep_noop (out : Heap) (h : trigDeep out = false) : dropDeepPar
     _ = out := List.map_id out
 
 
+/-! ## After the repairs of F-C04-1 (`9a6f576`) and F-C04-2 (`453154d`)
+
+`from_dao` fixes every reference that was resolved to the intermediate mapping instance of an alternatively mapped DAO
+in progress once the final object exists, and keeps every converted DAO (also the temporary parent DAOs) alive, so
+the code is the copy with `quirk := false` and no collision choice: the driver's `model=` is `roundTrip false`.
+`C04_roundtrip_partial`, `C04_cex_altmapped_cycle`, `C04_cex_stale_parent` and `C04_stale_parent_needs_two` remain as
+facts about the behaviour BEFORE these commits (regression documentation; the witnesses are in the corpus). -/
+
+/-- **C04_roundtrip.** The round trip `from_dao(to_dao(g))` — any number of roots, one state each way — is isomorphic
+to `g` for EVERY finite object graph: no trigger, no restriction on cycles through alternatively mapped objects. The
+only hypothesis left is that the user-written mapping pairs round-trip. -/
+theorem C04_roundtrip (unmap : Label → Option Label) (h : Heap) (roots rs' : List Nat) (st' : St)
+    (hrt : RoundTrips unmap h) (hrun : roundTrip false unmap h roots = some (rs', st')) :
+    Iso h roots st'.out rs' := C04_full unmap h roots rs' st' hrt hrun
+
+/-- **C04_canon.** What the driver prints: `model=` IS `spec=` for every finite object graph. -/
+theorem C04_canon (unmap : Label → Option Label) (h : Heap) (roots rs' : List Nat) (st' : St)
+    (hrt : RoundTrips unmap h) (hrun : roundTrip false unmap h roots = some (rs', st')) :
+    canon st'.out rs' = canon h roots :=
+  (Iso_canon_eq (C04_roundtrip unmap h roots rs' st' hrt hrun)).symm
+
+/-- the former witness of F-C04-1 now round-trips (test) -/
+example : ∃ rs' st', roundTrip false cexUnmap cexHeap [0] = some (rs', st') ∧ Iso cexHeap [0] st'.out rs' := by
+  obtain ⟨rs', st', hrun⟩ := C04_roundtrip_total false cexUnmap cexHeap (by
+    intro n hn t ht
+    have : ∀ n ∈ cexHeap, ∀ t ∈ n.targets, t < cexHeap.length := by decide
+    exact this n hn t ht) [0] (by decide)
+  exact ⟨rs', st', hrun, C04_roundtrip cexUnmap cexHeap [0] rs' st' (by decide) hrun⟩
+
 end KrroodVerif.Dao
